@@ -677,5 +677,5 @@ def run(db, ctx):
             what = {'panic:unimplemented': 'unimplemented!() is reachable on malformed input', 'panic:unreachable': 'unreachable!() cannot be shown dead',
                     'call:unwrap': 'unwrap/expect on a value that can be None/Err'}.get(s['kind'], 'no proof rule discharges this potential panic')
             ctx.fail('R15.1', f, site_key(f, s, R), what + extra, span=s['span'])
-    ctx.floor('R15.1', n, 35, 'panic sites inventoried')
+    ctx.floor('R15.1', n, 35 if db.crates.get('lightmotif_io', {}).get('overflow_checks') else 28, 'panic sites inventoried')
     read_loops(db, ctx, roots)
